@@ -2,7 +2,8 @@
 # usage: build.sh <repo root> <demo.c> <out dir>   -- compiles the real engine sources of <repo root> with clang + ASan and links the demo
 ROOT=$(cd "$1" && pwd); DEMO=$2; B=$3
 HERE=$(cd "$(dirname "$0")" && pwd)
-CF="-g -O0 -w -I$ROOT/include -I$ROOT/src -I$HERE -I$HERE/../stubs -fsanitize=address"
+SAN=${SAN:-address}
+CF="-g -O0 -w -I$ROOT/include -I$ROOT/src -I$HERE -I$HERE/../stubs -fsanitize=$SAN"
 ls $ROOT/src/engine/*.c | grep -v engine_collision_convex.c | xargs -P8 -I{} sh -c 'clang '"$CF"' -c {} -o '"$B"'/$(basename {} .c).o' || exit 2
 clang $CF -c "$DEMO" -o "$B/demo.o" || exit 2
-clang -fsanitize=address -no-pie -o "$B/demo" "$B"/*.o -Wl,--unresolved-symbols=ignore-all -lm -lpthread || exit 2
+clang -fsanitize=$SAN -no-pie -o "$B/demo" "$B"/*.o -Wl,--unresolved-symbols=ignore-all -lm -lpthread || exit 2
